@@ -146,8 +146,5 @@ impl EdgeList {
     @*/
 }
 
-// NOT under contract: `<EdgeList as Complement>::complement` (C11).  With `loopify=BTreeSet wrap=chain,copied` the extractor produces
-// `for vx_p in it1: vx_copied({ ..inner accumulator block.. }.difference(&self.arcs)) { .. }`; Verus' for-loop expansion binds the
-// iterator expression with a `let`, so the temporary inner set is dropped while `difference` still borrows it
-// (rustc E0716 "temporary value dropped while borrowed").  Needed: E14 hoisting a nested collected block that is a method
-// receiver into `let vx_tmpN = { .. };` before the enclosing statement.
+// `<EdgeList as Complement>::complement` (C11) is under contract in unit edge_list_compl (rules E14b / E14c: fused stages, the nested
+// collected set bound before the loop).
